@@ -75,7 +75,7 @@ impl Policy for HistPolicy {
                 _ => {}
             }
         }
-        let issued = if req.key == "Reservation" && outcome == Outcome::Ok { Some(t.free_receipt()) } else { None };
+        let issued = if req.key == "Reservation" && matches!(outcome, Outcome::Ok | Outcome::OkExtraStatus) { Some(t.free_receipt()) } else { None };
         st.chosen.push((x, outcome.clone(), issued));
         let mut steps = default_script(t, req, &outcome, 1);
         if x == Xch::P3 && st.eod_chosen == Some(Eod::StatusCompletion) {
@@ -231,9 +231,9 @@ pub fn history(ctx: &mut Ctx, p: &HistParams, first: usize, acc: &mut Acc) -> Hi
                                     bad07(format!("expected exactly one Reservation for the configured amount and currency with the token as reference: {}", diff.join("; ")));
                                 }
                                 match chosen.first() {
-                                    Some((Xch::Main, Outcome::Ok, Some(r))) => {
+                                    Some((Xch::Main, Outcome::Ok | Outcome::OkExtraStatus, Some(r))) => {
                                         if !res.is_ok() {
-                                            bad07(format!("the terminal issued receipt {r}: begin must succeed, got {}", res.short()));
+                                            bad07(format!("the terminal issued receipt {r}: begin must succeed and record it, got {}", res.short()));
                                         }
                                         model.open.insert(t.clone(), *r as u64);
                                         if closed_once.contains(t) {
